@@ -68,7 +68,7 @@ def check(repo, tier):
     run.rule('D3', 'gram: the result is the Hadamard product over the modes of Theta_1^T Theta_2, Theta_1 built from x_1 and Theta_2 from x_2 with the functions of that mode, contracted over the basis index')
     run.rule('D4', 'the public constructions do not modify their arguments (data, basis lists, rank lists): Layer-1 effect analysis')
     run.trusted = ['NumPy transfer functions']
-    run.bounds = 'modes p in {1,2,3}, 2-3 functions per mode, state dimension 2-3, symbolic snapshot count; add_one on/off'
+    run.bounds = ('modes p in {1..5}, 2-3 functions per mode, state dimension 1-4' if tier == 'thorough' else 'modes p in {1,2,3}, 2-3 functions per mode, state dimension 2-3') + ', symbolic snapshot count; add_one on/off'
 
     def F(qual, rule, what, msg):
         fn = repo.fn(qual)
@@ -77,11 +77,13 @@ def check(repo, tier):
     def mk_x(sc, d):
         return Arr([d, sc.atom('m')], None, 'real', None, {'role': 'x'}, 'x')
     grids = []
-    for p in (1, 2, 3):
+    big = tier == 'thorough'
+    for p in ((1, 2, 3, 4, 5) if big else (1, 2, 3)):
         grids.append(('basis_decomposition', {'p': p}))
-    for d, p in ((2, 2), (3, 2)):
+    for d, p in (((1, 1), (1, 3), (2, 1), (2, 2), (3, 2), (4, 3), (2, 4)) if big else ((2, 2), (3, 2))):
         grids.append(('coordinate_major', {'d': d, 'p': p}))
-    for d, p, ao in ((2, 1, True), (2, 3, True), (2, 3, False), (3, 2, True)):
+    for d, p, ao in (((1, 1, True), (1, 1, False), (1, 3, True), (2, 1, True), (2, 1, False), (2, 3, True), (2, 3, False), (3, 2, True), (3, 2, False), (4, 4, True), (3, 5, False)) if big
+                     else ((2, 1, True), (2, 3, True), (2, 3, False), (3, 2, True))):
         grids.append(('function_major', {'d': d, 'p': p, 'add_one': ao}))
     for which, par in grids:
         entry = f'{MOD}.{which}'
@@ -179,7 +181,7 @@ def check(repo, tier):
                     run.add(F(entry, 'D2', 'single_core option', f'{sscen}: the stores {str(got)[:260]} differ from those of core {i} of the full construction {str(full_stores[i])[:260]}'))
     # ------------------------------------------------------------------ D3 gram
     entry = f'{MOD}.gram'
-    for p in (1, 2, 3):
+    for p in ((1, 2, 3, 4, 5) if tier == 'thorough' else (1, 2, 3)):
         scen = f'gram({p} modes)'
         for overlapping in (False, True):
             scen = f'gram({p} modes, {"time-lagged views of one trajectory" if overlapping else "independent data sets"})'
